@@ -663,6 +663,8 @@ class Circuit(Function):
                         gate_type=cur_gate.gate_type,
                         operands=new_operands,
                     )
+                    if cur_gate.gate_type != gate.INPUT:
+                        gates_for_block.add(old_to_new_names[cur_gate.label])
 
         self.set_outputs(
             [output for output in self._outputs if output not in this_connectors]
